@@ -226,6 +226,7 @@ def run_real(c):
     f = make_forecaster(c)
     toks = []
     held = []
+    other = [None]
     for op in c["ops"]:
         k = op[0]
         ya = mk_series(op[1], shift, rng_idx) if k in ("fit", "upd", "up", "ups") else None
@@ -248,6 +249,17 @@ def run_real(c):
             out = "ok" if res is f else show_out(res, shift, opaque)
         except Exception as e:
             out = canon_err(e)
+        # a second object of the same kind lives its own life in between: objects do not share state
+        if c.get("other"):
+            try:
+                if other[0] is None or len(toks) % 3 == 0:
+                    other[0] = make_forecaster(c)
+                    other[0].fit(mk_series([[7 + j, 1000.0 + 3 * j * j] for j in range(14)], shift, False), fh=mk_fh(["r", [1, 2, 5]], 0))
+                else:
+                    other[0].update(mk_series([[21 + len(toks), 5000.0], [22 + len(toks), -5000.0]], shift, False), update_params=bool(len(toks) % 2))
+                    other[0].predict([1, 2, 5])
+            except Exception:
+                pass
         # the caller's own objects -- this call's and every earlier call's -- are not the forecaster's to change
         if (_snap(ya), _snap(fa)) != before or any(_snap(a) != b for a, b in held):
             out = "E:argmod"
